@@ -58,6 +58,9 @@ func (vertex *Vertex) Validate() error {
 	if vertex.Label == "" {
 		return errors.New("'label' cannot be blank")
 	}
+	if hasNUL(vertex.Gid) || hasNUL(vertex.Label) {
+		return errors.New("'gid' and 'label' cannot contain a NUL byte")
+	}
 	for k := range vertex.GetDataMap() {
 		err := ValidateFieldName(k)
 		if err != nil {
@@ -121,6 +124,9 @@ func (edge *Edge) Validate() error {
 	if edge.To == "" {
 		return errors.New("'to' cannot be blank")
 	}
+	if hasNUL(edge.Gid) || hasNUL(edge.Label) || hasNUL(edge.From) || hasNUL(edge.To) {
+		return errors.New("'gid', 'label', 'from' and 'to' cannot contain a NUL byte")
+	}
 	for k := range edge.GetDataMap() {
 		err := ValidateFieldName(k)
 		if err != nil {
@@ -156,7 +162,16 @@ func ValidateFieldName(k string) error {
 	return nil
 }
 
+// hasNUL reports whether s contains the byte 0x00, which the key/value
+// drivers use as the separator of composite keys.
+func hasNUL(s string) bool {
+	return strings.IndexByte(s, 0) >= 0
+}
+
 func validate(k string) error {
+	if hasNUL(k) {
+		return errors.New(`cannot contain a NUL byte`)
+	}
 	if strings.ContainsAny(k, `!@#$%^&*()+={}[] :;"',.<>?/\|~`) {
 		return errors.New(`cannot contain: !@#$%^&*()+={}[] :;"',.<>?/\|~`)
 	}
